@@ -1,6 +1,8 @@
 /- C17: encoding any constructible message never panics (enc_no_panic at Gen.env; guards, references and frame headers
    kernel-evaluated on Gen). -/
-import FinProto.Obl.Side
+import FinProto.Obl.SGuards
+import FinProto.Obl.SMirror
+import FinProto.Obl.SRefs
 import FinProto.Props.EncLemmas
 namespace FinProto.Obl
 open FinProto
